@@ -134,6 +134,19 @@ def census(facts, pred):
 def discharged(b, bb):
     """local discharge rules for asserts / panicky calls that cannot fire whatever the input"""
     t = b.term(bb)
+
+    def konst(op):
+        """integer value of an operand that is a constant, possibly through single-assignment temporaries"""
+        for _ in range(4):
+            if op[0] == "k":
+                return int(op[3]) if op[1] == "int" else None
+            if op[0] in ("c", "m") and not op[1][1]:
+                sd = b.single_def(op[1][0])
+                if sd and sd[0] == "stmt" and sd[3][0] == "use":
+                    op = sd[3][1]
+                    continue
+            return None
+        return None
     if t[0] == "assert":
         kind = t[3]
         ops = t[4]
@@ -144,9 +157,10 @@ def discharged(b, bb):
                 lt = b.local_ty(ops[0][1][0]) if not ops[0][1][1] else None
             if lt in width and 0 <= int(ops[1][3]) < width[lt]:
                 return "shift by constant %s < width of %s" % (ops[1][3], lt)
-        if kind == "BoundsCheck" and len(ops) == 2 and ops[0][0] == "k" and ops[1][0] == "k":
-            if int(ops[1][3]) < int(ops[0][3]):
-                return "constant index %s into array of length %s" % (ops[1][3], ops[0][3])
+        if kind == "BoundsCheck" and len(ops) == 2:
+            ln, ix = konst(ops[0]), konst(ops[1])
+            if ln is not None and ix is not None and 0 <= ix < ln:
+                return "constant index %d into array of length %d" % (ix, ln)
         if kind.startswith("Overflow:") and all(o[0] == "k" for o in ops):
             return "constant operands"
         if kind in ("DivisionByZero", "RemainderByZero") and t[1][0] in ("c", "m") and not t[1][1][1]:
@@ -404,8 +418,49 @@ def r4(ctx, facts, cg, pred):
             r.ok("scc:" + rep, "reviewed (%d functions): %s" % (len(comp), why), rb.span)
 
 
+def selftest(ctx):
+    """non-vacuity: the census / allocation / recursion detectors must fire on the deliberately violating fixture crate"""
+    r = ctx.rule("R9", "non-vacuity: detectors fire on /verif/fixtures", floor=6)
+    fx = ctx.facts("fixtures")
+    cg = CallGraph(fx)
+    pred = cg.reachable(["fixtures::decode::entry", "fixtures::decode::shift_and_const_index"])
+    cen = census(fx, pred)
+    live = {}
+    for (key, kind), sites in cen.items():
+        for b, bb, sp in sites:
+            if not discharged(b, bb):
+                live.setdefault(key, set()).add(kind)
+    r.instance("fixture:bounds-check-on-wire-index", "assert:BoundsCheck" in live.get("decode::index_with_wire_value", set()), "census on fixtures: %s" % {k: sorted(v) for k, v in live.items()}, nontrivial=False)
+    r.instance("fixture:unwrap-of-a-read", any(k.startswith("call:") and k.endswith("::unwrap") for k in live.get("decode::unwrap_a_read", set())), "unwrap() on a read result must be in the census", nontrivial=False)
+    r.instance("fixture:constant-shift-and-index-discharged", "decode::shift_and_const_index" not in live, "constant shift / constant index must be discharged; live: %s" % sorted(live.get("decode::shift_and_const_index", [])), nontrivial=False)
+    callers_index = {}
+    for p in pred:
+        b = fx.body(p)
+        for bb, c in b.calls():
+            for n in c.names():
+                callers_index.setdefault(n, []).append((b, bb))
+    verdict = {}
+    for p in pred:
+        b = fx.body(p)
+        for bb, c in b.calls():
+            if bb in b.live_blocks and ALLOC.search(c.name or c.decl or ""):
+                op = size_operand(c)
+                origins = classify_origin(fx, cg, b, op, callers_index)
+                w32 = any(o.startswith("wire32") for o in origins)
+                g = guarded_by_remaining(b, df_of(b, fx), c, op) if w32 else None
+                verdict[fn_short(p)] = "violation" if (w32 and not g) else "ok"
+    r.instance("fixture:alloc-from-32-bit-wire-field", verdict.get("decode::alloc_from_wire32") == "violation", "allocation verdicts on fixtures: %s" % verdict, nontrivial=False)
+    r.instance("fixture:alloc-16-bit-and-clamped-accepted", verdict.get("decode::alloc_from_wire16") == "ok" and verdict.get("decode::alloc_clamped") == "ok", "allocation verdicts on fixtures: %s" % verdict, nontrivial=False)
+    comps = cg.sccs(pred.keys())
+    r.instance("fixture:wire-driven-recursion-found", any("fixtures::decode::nested" in c for c in comps), "SCCs on fixtures: %s" % comps, nontrivial=False)
+
+
 def check(ctx):
     facts = ctx.facts("default")
+    try:
+        selftest(ctx)
+    except Exception as ex:  # the control itself failing is a failure of the check
+        ctx.rule("R9x", "non-vacuity control").fail("selftest-error", "%s: %s" % (type(ex).__name__, ex))
     cg, roots, pred, per = decode_set(facts)
     missing = [p for p, n in per.items() if n == 0]
     anc = ctx.rule("R0", "decode entry points resolve", floor=len(ENTRY_PATTERNS))
